@@ -55,7 +55,9 @@ OpDel(n) == <<7, n, 0, 0>>
 OpUseOrAssign(n, v) == <<8, n, v, 0>>
 OpUseOrCreate(n, v) == <<9, n, v, 0>>
 OpAddCleanup(id, rz, args, layer) == <<10, id, rz + 2 * args, layer>>   \* rz, args in {0,1}; layer 0 = current
-OpUseFixture(kind, id, rz) == <<11, id, rz, kind>>    \* kind 1 generator, 2 plain, 3 failing setup, 4 composite
+OpUseFixture(kind, id, rz) == <<11, id, rz, kind>>    \* kind 1 generator, 2 plain, 3 failing setup, 4 composite,
+                                                      \* 5 generator whose SETUP part registers a cleanup (callable 97,
+                                                      \*   with args) and uses another generator fixture (id 98)
 OpSwitchMode == <<12, 0, 0, 0>>
 OpExecSteps(ok) == <<13, ok, 0, 0>>                   \* ok = 1: sub-step passes, 0: sub-step fails
 OpEndRun == <<14, 0, 0, 0>>                           \* ModelRunner.run_model: _do_cleanups() of the testrun layer
@@ -177,6 +179,11 @@ DoUseFixture(s, id, rz, kind, seq) ==
    IN CASE kind = 1 -> Res([s EXCEPT !.frames[d].cls = Append(@, GenEntry(seq, id, rz, 1))], ENone, 0, 0, <<Key(seq, 3, id)>>)
         [] kind = 2 -> LET r == SetCore(s, NmA, 2) IN Res(r.s, r.e, r.w, 0, <<Key(seq, 3, id)>>)
         [] kind = 3 -> Res([s EXCEPT !.frames[d].cls = Append(@, GenEntry(seq, 99, 0, 0))], ESetup, 0, 0, <<Key(seq, 3, 99)>>)
+        [] kind = 5 -> \* own teardown is registered FIRST (before next()), then whatever the setup part registers
+                       Res([s EXCEPT !.frames[d].cls = @ \o << GenEntry(seq, id, rz, 1),
+                                                                [key |-> Key(seq, 1, 97), fn |-> 0, rz |-> 0, live |-> 1],
+                                                                GenEntry(seq, 98, 0, 1) >>],
+                           ENone, 0, 0, <<Key(seq, 3, id), Key(seq, 3, 98)>>)
         [] OTHER    -> Res([s EXCEPT !.frames[d].cls = Append(Append(@, GenEntry(seq, id, rz, 1)), GenEntry(seq, 99, 0, 0))],
                            ESetup, 0, 0, <<Key(seq, 3, id), Key(seq, 3, 99)>>)
 DoSwitchMode(s) == Res([s EXCEPT !.mode = 3 - @], ENone, 0, 0, <<>>)
@@ -330,12 +337,18 @@ MonCase(m, op, ob, seq) ==
         [] c = 11 -> LET kind == op[4]
                          want == CASE kind = 3 -> <<Key(seq, 3, 99)>>
                                    [] kind = 4 -> <<Key(seq, 3, n), Key(seq, 3, 99)>>
+                                   [] kind = 5 -> <<Key(seq, 3, n), Key(seq, 3, 98)>>
                                    [] OTHER -> <<Key(seq, 3, n)>>
                          sv == IF ran = want THEN {} ELSE {<<"fixture_cleanup", "setup">>}
                          reg == [key |-> Key(seq, 2, n), rz |-> op[3], n |-> 1]
                      IN CASE kind = 1 -> LET f == [m EXCEPT ![d].regs = Append(@, reg)] IN MR(f, sv \cup ViewV(f, ob, "visible"), {ENone})
                           [] kind = 2 -> LET f == [m EXCEPT ![d].attrs[NmA] = 2] IN MR(f, sv \cup ViewV(f, ob, "visible"), {ENone})
                           [] kind = 3 -> MR(m, sv \cup ViewV(m, ob, "visible"), {ENone, ESetup})
+                          [] kind = 5 -> \* the fixture is used (its teardown counts as registered) BEFORE anything its setup
+                                         \* part registers: at the scope end the inner ones run first, its own teardown last
+                                         LET f == [m EXCEPT ![d].regs = @ \o << reg, [key |-> Key(seq, 1, 97), rz |-> 0, n |-> 1],
+                                                                                [key |-> Key(seq, 2, 98), rz |-> 0, n |-> 1] >>]
+                                         IN MR(f, sv \cup ViewV(f, ob, "visible"), {ENone})
                           [] OTHER -> LET f == [m EXCEPT ![d].regs = Append(@, reg)] IN MR(f, sv \cup ViewV(f, ob, "visible"), {ENone, ESetup})
         [] c = 12 -> MR(m, ViewV(m, ob, "visible") \cup EarlyV(ran), {ENone})
         [] c = 15 -> \* after EVERY return (also by AssertionError) the step that called execute_steps has its own text/table
